@@ -274,6 +274,48 @@ theorem every_field_write_is_journalled :
       ∃ f ∈ Gen.StateJournal.funcs, k ∈ f.2.1) := by decide
 
 
+/-! ### several instances over one database -/
+
+/-- **reopened_instances_independent**: k StateDB instances over ONE `state.Database` (opened at committed roots with
+    `New`/`Reset`, or taken by `Copy`). Whatever history runs on the OTHER instances — mutators, snapshots/reverts, Finalise,
+    IntermediateRoot, Commit (which adds a root to the database), Reset, further opens and copies — instance `j` is unchanged
+    (so every getter reads what it read before), and every committed root still holds its content. In particular an
+    instance opened at root R and never operated on reads exactly the content of R and its IntermediateRoot is R. -/
+theorem reopened_instances_independent (steps : List WStep) (w w' : World) (j : Nat) (hj : j < w.insts.length)
+    (ha : ∀ st ∈ steps, st.avoids j = true) (h : World.run steps w = some w') :
+    w'.insts[j]? = w.insts[j]? ∧ (∀ (k : Nat) c, w.committed[k]? = some c → w'.committed[k]? = some c) := by
+  induction steps generalizing w with
+  | nil => simp only [World.run, Option.some.injEq] at h; subst h; exact ⟨rfl, fun _ _ hc => hc⟩
+  | cons st sts ih =>
+    simp only [World.run] at h
+    cases hs : w.step st with
+    | none => simp [hs] at h
+    | some w1 =>
+      simp only [hs] at h
+      obtain ⟨h1, h2⟩ := world_step_others w w1 st j hj (ha st List.mem_cons_self) hs
+      have hj1 : j < w1.insts.length := Nat.lt_of_lt_of_le hj (world_step_length w w1 st hs)
+      obtain ⟨h3, h4⟩ := ih w1 hj1 (fun s hs' => ha s (List.mem_cons_of_mem _ hs')) h
+      exact ⟨h3.trans h1, fun k c hc => h4 k c (h2 k c hc)⟩
+
+/-- an instance opened at a committed content and not operated on reads exactly that content, and its
+    IntermediateRoot/Finalise leaves the trie (hence the root) as committed. -/
+theorem untouched_instance_reads_root (c : Addr → Option Acct) (d : Bool) :
+    (∀ a, viewAt (fresh c) a = (c a).map (fun x => (fromAcct x).view)) ∧ (finalise d (fresh c)).trie = c ∧
+    contentOf (fresh c) = c := by
+  refine ⟨fun a => by simp [viewAt, look, fresh]; rfl, ?_, ?_⟩
+  · funext a; simp [finalise, fresh]
+  · funext a
+    simp only [contentOf, look, fresh]
+    cases c a with
+    | none => rfl
+    | some x => simp [toAcct_fromAcct]
+
+-- non-vacuity: two instances opened at the same committed root; a mutation + Commit on instance 0 leaves instance 1 as it was
+example : (World.run [.openAt 0, .openAt 0, .at 0 (.tx (.mutate (.setBalance 2 70))), .at 0 (.commit true)]
+    { committed := [fun a => if a = 2 then some emptyAcct else none], insts := [] }).map
+      (fun w => ((w.insts[1]?).map fun s => balanceOf s 2, (w.insts[0]?).map fun s => balanceOf s 2, w.committed.length)) =
+    some (some 0, some 70, 2) := by decide
+
 /-! ### the root equals the Merkle-Patricia root the specification defines for the content (concrete, via C10 and C11)
 
   `stateRootSpec H addrs slots content` (Aqv.Model.StateRoot) is the Yellow-Paper root (C10 `mptRoot`) of
